@@ -35,6 +35,7 @@ def run(ctx):
     ctx.rule(default_window)
     ctx.rule(logfloor)
     ctx.rule(filters_stored_whole)
+    ctx.rule(log_floor_live)
 
 
 def geom(ctx, R="R-C02-geom"):
@@ -268,6 +269,11 @@ def logfloor(ctx, R="R-C02-logfloor"):
         m = prog.module(modname)
         for f in [x for x in prog.functions.values() if x.module is m]:
             pm = None
+            from .. import alpha as _alpha
+            if _alpha.is_new_function(f.qualname) and not any(
+                    (astq.is_name(c_.func, f.name) or (isinstance(c_.func, ast.Attribute) and c_.func.attr == f.name))
+                    for g_ in prog.functions.values() if g_.module is m and g_ is not f for c_ in astq.func_calls(g_)):
+                continue  # a helper the reference does not have, read through at every call: its body is judged where it is used
             for c in astq.func_calls(f):
                 q = prog.qualify(m, c.func, f)
                 is_np_log = q in ("numpy.log",)
@@ -338,3 +344,10 @@ def filters_stored_whole(ctx, R="R-C02-walk"):
                     "the constructor stores the bank's %s unmodified" % what, robust=True)
         else:
             ctx.error(R, "cannot decide how the constructor stores the bank's %s: %s" % (what, S.show(elem)[:120]))
+
+
+def log_floor_live(ctx, R="R-C02-logfloor"):
+    """config.LOG_FLOOR_VALUE is documented as tunable: the floor is read through the config module when a frame is computed,
+    not captured in a default argument, a module-level constant, a from-import or (C02: the constructor)"""
+    from .c07 import config_live
+    config_live(ctx, R, floor=3, module="compute", attr="LOG_FLOOR_VALUE")
